@@ -31,8 +31,25 @@ PRESENT_P = [
 ]
 
 
-def cellpar(sg, rng):
+def cellpar(sg, rng, near=False):
+    """near=True: lattice parameters close to (but, by more than the analysis tolerances, distinct from) a more
+    symmetric metric: angles 1-2.2 degrees off 90, axis lengths 1.5-3 % apart."""
     a, b, c = rng.uniform(4.0, 7.5, 3)
+    if near:
+        b = a * (1 + float(rng.uniform(0.015, 0.03)))
+        c = a * (1 + float(rng.uniform(0.035, 0.05)))
+        off = lambda: 90 + float(rng.choice([-1, 1])) * float(rng.uniform(1.0, 2.2))  # noqa: E731
+        if sg <= 2:
+            return [a, b, c, off(), off(), off()]
+        if sg <= 15:
+            return [a, b, c, 90, 90 + float(rng.uniform(1.0, 2.2)), 90]
+        if sg <= 74:
+            return [a, b, c, 90, 90, 90]
+        if sg <= 142:
+            return [a, a, c if rng.random() < 0.5 else b, 90, 90, 90]
+        if sg <= 194:
+            return [a, a, c, 90, 90, 120]
+        return [a, a, a, 90, 90, 90]
     if abs(a - b) < 0.3:
         b += 0.6
     if abs(b - c) < 0.3:
@@ -133,7 +150,7 @@ def gen_crystal(sg, k, max_atoms=120, letters=None, tol=TOL, tries=60):
         n_species = int(rng.integers(1, len(chosen) + 1))
         pool = list(rng.choice(ELEMENTS, n_species, replace=False))
         species = [pool[i % n_species] for i in range(len(chosen))]
-        cp = cellpar(sg, rng)
+        cp = cellpar(sg, rng, near=(k % 3 == 2))
         try:
             at = crystal(species, basis, spacegroup=sg, cellpar=cp, onduplicates="error", symprec=1e-4)
         except Exception:
